@@ -313,6 +313,12 @@ impl Ctx {
                     }
                 }
                 v["callees"] = json!(callees);
+                // source line of every block's terminator, for crate-local code only (coverage gap map, tools/covmap.py)
+                if name.contains("rasn_compiler") {
+                    let lines: Vec<usize> = body.blocks.iter().map(|bb| bb.terminator.span.get_lines().start_line).collect();
+                    v["block_lines"] = json!(lines);
+                    v["file"] = json!(body.span.get_filename());
+                }
                 let mut b = serde_json::to_value(&body).unwrap();
                 // spans and debug info are not needed and dominate the size
                 if let Some(o) = b.as_object_mut() {
